@@ -151,41 +151,57 @@ def rule_src_dec(ctx, tu):
 
 
 def rule_prop(ctx, tu):
+    """ReactionProp: k[cell, r] * prod_s x(x-1)...(x-c+1) with c = sub[s, r], and 0 when x < c for some s"""
     R = "C07.PROP"
     for b in BASES:
         f = tu.fn(b + "::ReactionProp")
         ps = f.param_names()
         S = Poly.sym
-        xidx = None
         loops = [n for n in walk(f.body) if n.get("kind") == "ForStmt"]
         ctx.need(len(loops) == 2, R, "%s: species loop and product loop not found" % f.qual)
         outer, inner = loops
-        sv = outer.get("_loopvar", (None,))[0] or uname(strip(kids(strip(cxa.for_parts(outer)[1]))[0], casts=True))
-        subidx = S(sv) * S("n_reactions") + S(ps[1])
-        xidx = S(ps[0]) * S("n_species") + S(sv)
-        # sufficiency test and trip count read sub at the same (species, reaction)
-        ifs = [n for n in walk(cxa.for_parts(outer)[3]) if n.get("kind") == "IfStmt"]
-        ctx.need(len(ifs) == 1, R, "%s: sufficiency test not found" % f.qual)
-        facts = cxa.cfacts(cxfe.raw_kids(ifs[0])[0], True)
-        ok = ("sub[%r] <= mesh_x[%r]" % (subidx, xidx), True) in facts
-        ctx.check(ok, R, ifs[0], f.qual, text(ifs[0]), "enough molecules of species s for reaction r",
-                  "the sufficiency test does not compare the amount of species s with its coefficient in this reaction")
+        sv = uname(strip(kids(strip(cxa.for_parts(outer)[1]))[0], casts=True))
+        sub_t = "sub[%r]" % (S(sv) * S("n_reactions") + S(ps[1]))
+        x_t = "mesh_x[%r]" % (S(ps[0]) * S("n_species") + S(sv))
+        # (i) the product loop runs only where x >= c; (ii) where x < c the result is 0
+        prod_facts, zero_sites = [], []
+
+        def on_atom(node, facts):
+            for x in walk(node):
+                for s_ in cxa.stores_of_node(x):
+                    if s_.op == "*=":
+                        prod_facts.append((s_, frozenset(facts)))
+                    if s_.op == "=" and s_.base and s_.base[0] == "var" and cxa.const_int(s_.rhs) == 0 and \
+                            s_.how == "assign":
+                        zero_sites.append((x, frozenset(facts)))
+
+        class C(cxa.CanonFacts):
+            def ret(self, s_, cfg):
+                if s_.a is not None and cxa.const_int(s_.a) == 0:
+                    zero_sites.append((s_.src, frozenset(cfg)))
+        cl = C(on_atom, None, None)
+        from .. import ir as ir_
+        ir_.Engine(cl, "must").run(ir_.cx_to_ir(f.body))
+        suff = ("%s <= %s" % (sub_t, x_t), True)
+        ctx.need(len(prod_facts) == 1, R, "%s: product accumulation not found" % f.qual)
+        mul, pf = prod_facts[0]
+        ctx.check(suff in pf, R, mul.node, f.qual, text(mul.node), "multiplied only where species s has enough molecules "
+                  "(x >= sub[s, r])", "the combinatorial factor is accumulated without the sufficiency test on the amount of "
+                  "species s against its own coefficient in this reaction")
+        zs = [z for z in zero_sites if (suff[0], False) in z[1]]
+        ctx.check(len(zs) >= 1, R, f.node, f.qual, "insufficient reactants: propensity 0", "impossible reactions have zero "
+                  "propensity", "a reaction without enough reactant molecules keeps a non-zero propensity")
         init, cond, inc, body = cxa.for_parts(inner)
         cf = cxa.cfacts(cond, True)
         qv = uname(strip(kids(strip(cond))[0], casts=True))
-        ctx.check(("%s < sub[%r]" % (qv, subidx), True) in cf, R, inner, f.qual, text(inner),
+        ctx.check(("%s < %s" % (qv, sub_t), True) in cf, R, inner, f.qual, text(inner),
                   "one factor per required molecule (trip count = the same coefficient)", "trip count is not sub[s, r]")
-        muls = [s for s in cxa.all_stores(body) if s.op == "*="]
-        ctx.need(len(muls) == 1, R, "%s: product accumulation not found" % f.qual)
-        want = "(mesh_x[%r] - %s)" % (xidx, qv)
-        ctx.check(cxa.canon(muls[0].rhs) == want, R, muls[0].node, f.qual, text(muls[0].node),
+        want = "(%s - %s)" % (x_t, qv)
+        ctx.check(cxa.canon(mul.rhs) == want, R, mul.node, f.qual, text(mul.node),
                   "falling factorial x (x-1) ... (x-c+1)", "the multiplicand is %s, not (x - q): the propensity is not the "
-                  "number of distinct reactant combinations" % cxa.canon(muls[0].rhs))
-        els = cxfe.raw_kids(ifs[0])[2] if len(cxfe.raw_kids(ifs[0])) > 2 else None
-        zero = els is not None and any(s.op == "=" and cxa.const_int(s.rhs) == 0 for s in cxa.all_stores(els))
-        ctx.check(zero, R, ifs[0], f.qual, "insufficient reactants: a = 0", "impossible reactions have zero propensity",
-                  "a reaction without enough reactant molecules keeps a non-zero propensity")
-        a0 = [n for n in walk(f.body) if n.get("kind") == "VarDecl" and kids(n)][0]
+                  "number of distinct reactant combinations" % cxa.canon(mul.rhs))
+        a0 = [n for n in walk(f.body) if n.get("kind") == "VarDecl" and kids(n) and
+              n.get("id") not in cxfe.CONST_INLINE and n.get("id") not in cxfe.INLINE][0]
         ctx.check(cxa.canon(kids(a0)[-1]) == "mesh_kr[%r]" % (S(ps[0]) * S("n_reactions") + S(ps[1])), R, a0, f.qual, text(a0)[:70],
                   "starts from the volume-scaled constant of (cell, reaction)", "starts from another constant")
     ctx.floor(R, 10)
